@@ -30,6 +30,8 @@ type Call struct {
 type Case struct {
 	Programs [][]Call `json:"programs"` // one per node (node id = index+1)
 	Schedule []int    `json:"schedule"`
+	// Batch: two writes parked at the same time are applied by ONE Update call of the metadata state machine (proposals committed together)
+	Batch bool `json:"batch,omitempty"`
 }
 
 func genCase(t *rapid.T) Case {
@@ -44,6 +46,7 @@ func genCase(t *rapid.T) Case {
 		c.Programs = append(c.Programs, p)
 	}
 	c.Schedule = rapid.SliceOfN(rapid.IntRange(0, 2), 0, 40).Draw(t, "schedule")
+	c.Batch = rapid.IntRange(0, 2).Draw(t, "batch") == 0
 	return c
 }
 
@@ -82,6 +85,7 @@ func execute(c Case) (steps int, overlapped bool, f *vt.Failure) {
 
 func executeB(c Case) (steps int, overlapped bool, branching []int, f *vt.Failure) {
 	w := gate.NewWorld()
+	w.Batch = c.Batch
 	current := map[int]*callRec{}
 	believes := map[int]bool{} // node -> believes to hold an unexpired lease
 	var fail *vt.Failure
@@ -270,40 +274,42 @@ func TestC15Exhaustive(t *testing.T) {
 	schedules, overlappedN := 0, 0
 	st := vt.NewManualStats(prop, t.Name())
 	defer st.Flush()
-	for _, pa := range progs {
-		for _, pb := range progs {
-			// Every complete schedule exactly once: a node of the search is the execution "prefix followed by choice 0";
-			// its children deviate from it at one later choice point.
-			var dfs func(prefix []int) *vt.Failure
-			dfs = func(prefix []int) *vt.Failure {
-				c := Case{Programs: [][]Call{pa, pb}, Schedule: prefix}
-				_, overlapped, branching, f := executeB(c)
-				if f != nil {
-					f.Case = c
-					return f
-				}
-				schedules++
-				if overlapped {
-					overlappedN++
-				}
-				st.Record(c, overlapped, []string{fmt.Sprintf("programs:%d+%d-calls", len(pa), len(pb))})
-				for j := len(prefix); j < len(branching); j++ {
-					for ch := 1; ch < branching[j]; ch++ {
-						next := append([]int(nil), prefix...)
-						for len(next) < j {
-							next = append(next, 0)
-						}
-						next = append(next, ch)
-						if f := dfs(next); f != nil {
-							return f
+	for _, batch := range []bool{false, true} {
+		for _, pa := range progs {
+			for _, pb := range progs {
+				// Every complete schedule exactly once: a node of the search is the execution "prefix followed by choice 0";
+				// its children deviate from it at one later choice point.
+				var dfs func(prefix []int) *vt.Failure
+				dfs = func(prefix []int) *vt.Failure {
+					c := Case{Programs: [][]Call{pa, pb}, Schedule: prefix, Batch: batch}
+					_, overlapped, branching, f := executeB(c)
+					if f != nil {
+						f.Case = c
+						return f
+					}
+					schedules++
+					if overlapped {
+						overlappedN++
+					}
+					st.Record(c, overlapped, []string{fmt.Sprintf("programs:%d+%d-calls", len(pa), len(pb))})
+					for j := len(prefix); j < len(branching); j++ {
+						for ch := 1; ch < branching[j]; ch++ {
+							next := append([]int(nil), prefix...)
+							for len(next) < j {
+								next = append(next, 0)
+							}
+							next = append(next, ch)
+							if f := dfs(next); f != nil {
+								return f
+							}
 						}
 					}
+					return nil
 				}
-				return nil
-			}
-			if f := dfs(nil); f != nil {
-				p := st.Fail(f)
-				t.Fatalf("VERIF-FAIL signature=%s step=%d replay=%s\n%s", f.Signature, f.Step, p, f.Msg)
+				if f := dfs(nil); f != nil {
+					p := st.Fail(f)
+					t.Fatalf("VERIF-FAIL signature=%s step=%d replay=%s\n%s", f.Signature, f.Step, p, f.Msg)
+				}
 			}
 		}
 	}
